@@ -86,3 +86,35 @@ def module_text(decl, name="MC_Decl"):
 if __name__ == "__main__":
     import sys
     print(module_text(export(NETCDF_LIBS if "netcdf" in sys.argv else CSV_LIBS)))
+
+
+def doc_export(netcdf=False):
+    """[[command, [[parameter, kind word, required], ...]], ...] parsed from /repo/docs/user/lib-eems-*.rst (".. function::" / ":param X: (:ref:`param-kind`) *Optional*.")"""
+    import os
+    import re
+
+    out = []
+    for part in ("basic", "fuzzy", "netcdf" if netcdf else "csv"):
+        path = os.path.join(core.REPO, "docs", "user", "lib-eems-%s.rst" % part)
+        if not os.path.exists(path):
+            continue
+        cur = None
+        with open(path) as f:
+            for line in f:
+                m = re.match(r"\s*\.\. function:: (\w+)\(", line)
+                if m:
+                    cur = [m.group(1), []]
+                    out.append(cur)
+                    continue
+                m = re.match(r"\s*:param (\w+): \((.*?)\)\s*(\*Optional\*)?", line)
+                if m and cur:
+                    refs = re.findall(r":ref:`param-([\w-]+)`", m.group(2))
+                    cur[1].append([m.group(1), refs[0] if refs else "other", not m.group(3)])
+    return out
+
+
+def doc_module_text(dd, name="MC_DocDecl"):
+    lines = ["---- MODULE %s ----" % name, "\\* GENERATED at check time from docs/user/lib-eems-*.rst (harness/decl.py); do not edit.", "DocDecl == <<"]
+    lines.append(",\n".join("  " + tla(d) for d in dd))
+    lines += [">>", "===="]
+    return "\n".join(lines) + "\n"
